@@ -324,7 +324,7 @@ func genC03(g *G) {
 	recb = func(res, st string) {
 		g.Emit("btc", joinOr1(res), joinOr1(st), "-")
 		for k := 0; k < 2*len(st); k++ {
-			g.Emit("btc", joinOr1(res), joinOr1(st), strings.Repeat("0", k)+"1")
+			g.Emit("btc", joinOr1(res), joinOr1(st), c3SingleFault(g, k))
 		}
 		if len(st) == Lb {
 			return
@@ -363,7 +363,7 @@ func genC03(g *G) {
 		}
 		for j := 0; j < 2*n; j++ {
 			if g.Intn(12) == 0 {
-				fl.WriteByte('1')
+				fl.WriteByte(c3FaultLetter(g))
 			} else {
 				fl.WriteByte('0')
 			}
@@ -395,7 +395,7 @@ func genC03(g *G) {
 				var fl strings.Builder
 				for q := 0; q < 8; q++ {
 					if g.Intn(5) == 0 {
-						fl.WriteByte('1')
+						fl.WriteByte(c3FaultLetter(g))
 					} else {
 						fl.WriteByte('0')
 					}
